@@ -151,10 +151,20 @@ def cross_basetype_last(ref, W):
         return
     proj = W.leaves[0].split("/")[0]
     codes = sorted({s.split("/")[1] for s in W.leaves if "/" in s})
-    for T in ["*"] + ([",".join(codes)] if len(codes) > 1 else []):
+    for T in ["*", ">"] + ([",".join(codes)] if len(codes) > 1 else []):
         for n in range(3, ref.maxlen + 1):
             for i in range(2, n):
-                yield "/".join([proj, T] + ["*"] * (i - 2) + [">"] + ["*"] * (n - 1 - i))
+                if T == ">" and n > 4:
+                    continue
+                s = "/".join([proj, T] + ["*"] * (i - 2) + [">"] + ["*"] * (n - 1 - i))
+                yield s
+                # an optional filter on the '>' position: it replaces the '>' in the typed forms that own the key only
+                for typ in ref.types:
+                    ks = ref.keys(typ)
+                    if len(ks) == n:
+                        vals = [v for v in ref.accepted(typ, i, ref.literals() + ref.digit_instances()) if v not in ("*", ">")]
+                        if vals:
+                            yield s + "?" + ks[i] + "=~" + vals[-1]
 
 
 def run_finder(f, s):
@@ -223,6 +233,12 @@ def check_case(ref, W, fs, s, baseline=None):
     exp_l, _ = W.store.do_find("list", typed_direct, W.store.list_for_paths())
     last = any(">" in st.split("/") for _, st in typed)
     if last and (not same_pos or not all(">" in st.split("/") for _, st in typed)):
+        # no reference answer is defined for this shape (C09 speaks of '>' at one position of every unfolded form); the Finders
+        # still have to agree with each other on it
+        names = W.names
+        on_disk = {e for e in ans["all"] if e in W.store.paths}      # (constants-backed levels without folder are FindInAll's alone)
+        if not (ans[names[0]] == ans[names[-1]] == on_disk and ans["all"] == ans.get("all:named", ans["all"])):
+            bad("finders-disagree/last-lost-in-some-typed-forms", {k: sorted(v)[:3] for k, v in ans.items()}, "one answer")
         return out, "last-not-at-one-common-position(outside statement)", ans
     names = W.names
     if ans[names[0]] != ans[names[-1]]:
